@@ -416,6 +416,10 @@ def rule_H(ctx):
         desc = {'graph': label, 'edges (id, stored source, stored target, orientation, weight)': [list(e) for e in edges]}
         net, pos, geom = H.build(nodes, edges, layout, geographic=geographic)
         owned = {id(x) for x in H.owned}
+        if n_graphs % 6 == 1 and len(nodes) >= 3 and not geographic:
+            # a sub-network extracted first: the routes asked of the network afterwards are unaffected
+            H.guard(f, lambda: net.call('sub_network', nodes[0], 1e300, 'TOPOLOGIC', False))
+            desc = dict(desc, history='a sub-network was extracted from the network before the queries')
         pairs = [(s, t) for s in nodes for t in nodes if s != t]
         for (s, t) in pairs + list(reversed(pairs)):
             n_queries += 1
